@@ -17,10 +17,20 @@ spec -> code : TLC enumerates (MC_ConfigPrecedence.tla) the cross product of con
 code -> spec : seeded random MULTI-setting configurations with ugly concrete values on the real
                components -> ndjson -> Trace_ConfigPrecedence.tla (AllowedFor of the same model).
 
-quick    : the SDK / limits / sampler families completely, a seeded sample of the exporter cases
-           (every case that contains an ill-formed option, plus a seeded third of the rest), one
-           seeded representative of every concrete-value table, 400 random scenarios.
-thorough : the full product, eight representatives of every concrete-value table, 12000 scenarios.
+structs      : struct-valued options (WithRawSpanLimits / WithSpanLimits literal structs, both log record
+               options): every field class {zero, negative, positive} incl. the all-zero struct x field
+               variable {absent, valid, ill-formed}; each option modelled from ITS doc comment (DocSrc).
+cross        : metamorphic clause of the batch processors: a configuration of the four variables and
+               NormalizeCross(cfg) (ill-formed values without documented meaning -> absent) are both executed,
+               queue capacity / batch size / export deadline of both are logged as `Pair` lines and compared
+               by Trace_ConfigPrecedence.tla (the batch<=queue clamp itself is not judged).
+
+quick    : the SDK / limits / sampler / cross families completely, struct options in "star" mode (uniform
+           structs with one field varied), a seeded sample of the exporter cases (every case that contains an
+           ill-formed option, plus a seeded third of the rest), one seeded representative of every
+           concrete-value table, 400 random scenarios.
+thorough : the full product incl. all 3^6 structs, six representatives of every concrete-value table,
+           12000 scenarios.
 """
 import json
 import os
@@ -29,7 +39,7 @@ import re
 
 S = "ConfigPrecedence"
 EXPORTERS = ["otlptracehttp", "otlptracegrpc", "otlpmetrichttp", "otlpmetricgrpc", "otlploghttp", "otlploggrpc"]
-FAMILIES = ["endpoint", "headers", "compression", "timeout", "sdk", "limits", "sampler"]
+FAMILIES = ["endpoint", "headers", "compression", "timeout", "sdk", "limits", "sampler", "structs", "cross"]
 
 
 def tla_set(xs):
@@ -68,13 +78,52 @@ def obs_class(case, obs, ideal):
 
 
 def sig_of(direction, case, obs, ideal):
-    return {"dir": direction, "comp": case["comp"], "setting": case["setting"], "obs": obs_class(case, obs, ideal),
-            "kinds": kinds_of(case)}
+    sig = {"dir": direction, "comp": case["comp"], "setting": case["setting"], "obs": obs_class(case, obs, ideal),
+           "kinds": kinds_of(case)}
+    kind = (case.get("ctx") or {}).get("kind", "none")
+    if kind != "none":
+        sig["struct"] = kind      # the case belongs to a literal struct-valued option
+    return sig
+
+
+def pair_violations(ctx, direction, viols, trace_file):
+    """violations of the cross-setting clause (Pair lines): the configuration and its normalized
+    reference were observed to behave differently"""
+    lines = None
+    for v in viols:
+        if v.get("kind") not in ("cross", "drift"):
+            continue
+        if lines is None:
+            lines = open(trace_file).read().splitlines()
+        rec = json.loads(lines[v["line"] - 1])
+        if v["kind"] == "drift":
+            ctx.note_inconclusive("harness drift: reference configuration %s is not NormalizeCross(%s) = %s"
+                                  % (v["norm"], v["srcs"], v["want"]))
+            continue
+        srcs = ",".join(s["k"] for s in v["srcs"])
+        if v["srcs"] == v["norm"]:
+            # identical configurations observed differently: the experiment is not deterministic
+            ctx.note_inconclusive("cross experiment not reproducible for %s %s: %s vs %s" % (v["comp"], srcs, v["obs"], v["ref"]))
+            continue
+        def conclusive(x):
+            return not (str(x).startswith("INCONCLUSIVE") or x == "HANG")
+        # only components observed conclusively on both sides are compared
+        differs = "".join(k for k in ("q", "b", "t")
+                          if v["obs"][k] != v["ref"][k] and conclusive(v["obs"][k]) and conclusive(v["ref"][k]))
+        if not differs:
+            ctx.note_inconclusive("cross experiment inconclusive for %s %s: %s vs %s" % (v["comp"], srcs, v["obs"], v["ref"]))
+            continue
+        panic = "PANIC" in v["obs"].values()
+        report(ctx, {"dir": direction, "comp": v["comp"], "setting": "cross", "obs": "PANIC" if panic else "differs-" + differs,
+                     "kinds": srcs},
+               replay={"processor": v["comp"], "sources <<queue,batch,timeout,delay>>": v["srcs"], "env": rec.get("env"),
+                       "observed": v["obs"], "reference sources": v["norm"], "reference env": rec.get("refenv"),
+                       "reference observed": v["ref"], "detail": rec.get("detail"), "reference detail": rec.get("refdetail")})
 
 
 def sample_edges(ctx, edges_file, out_file):
-    """quick tier: every SDK / limits / sampler case, every exporter case whose OPTION source is
-    ill-formed, and a seeded third of the remaining exporter cases."""
+    """quick tier: every SDK / limits / sampler / struct / cross case, every exporter case whose OPTION
+    source is ill-formed, and a seeded third of the remaining exporter cases."""
     rnd = random.Random(ctx.seed)
     kept = total = 0
     with open(edges_file) as f, open(out_file, "w") as o:
@@ -82,7 +131,7 @@ def sample_edges(ctx, edges_file, out_file):
             total += 1
             act = json.loads(line)["act"]
             keep = True
-            if act["comp"] != "sdk":
+            if act["comp"] not in ("sdk", "bsp", "blrp"):
                 opt = act["srcs"][0]["k"]
                 illformed_opt = opt in ("badurl", "badenum", "unknown", "neg", "zero")
                 keep = illformed_opt or rnd.random() < 1.0 / 3
@@ -112,7 +161,8 @@ def run(ctx):
 
     # ---- spec: enumeration + precedence theorems, with coverage (vacuity)
     r = ctx.tlc(S, "MC_ConfigPrecedence", "MC_ConfigPrecedence.cfg",
-                defines={"FAMILIES": tla_set(FAMILIES), "EXPORTERS": tla_set(EXPORTERS)},
+                defines={"FAMILIES": tla_set(FAMILIES), "EXPORTERS": tla_set(EXPORTERS),
+                         "STRUCTMODE": '"full"' if thorough else '"star"'},
                 want_edges=True, coverage=True, name="product", timeout=1800)
     if r["zero_cov"]:
         ctx.note_inconclusive("TLC coverage: actions never taken: %s" % r["zero_cov"])
@@ -121,7 +171,7 @@ def run(ctx):
 
     # ---- spec -> code
     if thorough:
-        reps = list(range(8))
+        reps = list(range(6))
     else:
         reps = [ctx.seed % 8]
         sampled = os.path.join(ctx.work, "edges-sampled.ndjson")
@@ -133,7 +183,12 @@ def run(ctx):
     for rep in reps:
         out = os.path.join(ctx.work, "replay-%d.ndjson" % rep)
         resf = os.path.join(ctx.work, "replay-%d.json" % rep)
-        ctx.run([binp, "replay", "-edges", edges, "-rep", str(rep), "-out", out, "-res", resf], timeout=3000)
+        pairs = os.path.join(ctx.work, "pairs-%d.ndjson" % rep)
+        ctx.run([binp, "replay", "-edges", edges, "-rep", str(rep), "-out", out, "-res", resf, "-pairs", pairs], timeout=3000)
+        pv, pacc = ctx.validate_trace(S, "Trace_ConfigPrecedence", "Trace_ConfigPrecedence.cfg", pairs, timeout=3000,
+                                      name="pairs-%d" % rep)
+        ctx.extra["pair_lines_validated"] = ctx.extra.get("pair_lines_validated", 0) + pacc
+        pair_violations(ctx, "replay", pv, pairs)
         res = json.load(open(resf))
         replayed += res["executed"]
         ctx.traces_validated += res["executed"]
@@ -169,8 +224,11 @@ def run(ctx):
     ctx.extra["random_scenarios"] = n
     ctx.extra["trace_lines_validated"] = accepted
     ctx.add_samples(res["samples"][:1])
+    pair_violations(ctx, "random", viols, trace)
     lines = None
     for v in viols:
+        if v.get("kind") in ("cross", "drift"):
+            continue
         if lines is None:
             lines = open(trace).read().splitlines()
         scen = json.loads(lines[v["line"] - 1])
@@ -181,6 +239,8 @@ def run(ctx):
     # vacuity of the random driver: the interesting regimes must have been reached
     c = ctx.extra.get("counters", {})
     for k in ("random.kind.exporter", "random.kind.tracer", "random.kind.logger", "random.kind.bsp", "random.kind.blrp",
+              "random.kind.cross", "random.tracer.struct.raw", "random.tracer.struct.nonraw", "cases.cross.bsp", "cases.cross.blrp",
+              "cases.struct.raw", "cases.struct.nonraw", "cases.struct.logopts",
               "random.illformed_sources", "random.exporter.delivered", "random.tracer.limit_observed"):
         if not c.get(k):
             ctx.note_inconclusive("random driver never reached regime %s" % k)
